@@ -26,6 +26,7 @@ FINGERPRINT = [
     "canopen.pdo.base:PdoVariable.__init__",
     "canopen.pdo.base:PdoMap.add_variable",
     "canopen.pdo.base:PdoMap.clear",
+    "canopen.pdo.base:PdoMap.read",
     "canopen.pdo.base:PdoMap._update_data_size",
     "canopen.variable:Variable.raw",
     "canopen.variable:Variable.data",
@@ -64,7 +65,40 @@ def the_od():
     return _OD
 
 
-def build(layout, before=None):
+def build_via_read(layout):
+    """the same map, but obtained by PdoMap.read(from_od=True) from mapping parameters 0x1600"""
+    d = od.ObjectDictionary()
+    for t in ALL_TYPES:
+        v = od.ODVariable(f"v{t}", 0x2000 + t, 0)
+        v.data_type = t
+        d.add_object(v)
+    com = od.ODRecord("com", 0x1400)
+    for sub, t, val in ((0, 0x05, 2), (1, 0x07, 0x201), (2, 0x05, 255)):
+        v = od.ODVariable(f"c{sub}", 0x1400, sub)
+        v.data_type, v.value = t, val
+        com.add_member(v)
+    d.add_object(com)
+    mp = od.ODRecord("map", 0x1600)
+    v = od.ODVariable("m0", 0x1600, 0)
+    v.data_type, v.value = 0x05, len(layout)
+    mp.add_member(v)
+    for i, (t, ln) in enumerate(layout, 1):
+        v = od.ODVariable(f"m{i}", 0x1600, i)
+        v.data_type, v.value = 0x07, ((0x2000 + t) << 16) | ln
+        mp.add_member(v)
+    d.add_object(mp)
+    node = canopen.RemoteNode(1, d)
+    canopen.Network().add_node(node)
+    node.rpdo.read(from_od=True)
+    m = node.rpdo[1]
+    if len(m.map) != len(layout):
+        raise ValueError("mapping entries lost")
+    return m, list(m.map)
+
+
+def build(layout, before=None, via_read=False):
+    if via_read:
+        return build_via_read(layout)
     node = canopen.RemoteNode(1, the_od())
     m = PdoMap(PdoBase(node), None, None)
     if before is not None:
@@ -81,6 +115,8 @@ def build(layout, before=None):
 def parse_layout(s):
     """the layout in force; `old|new` = `new` mapped after a map holding `old` was cleared"""
     s = s.split("|")[-1]
+    if s.startswith("rd~"):
+        s = s[3:]
     return [tuple(int(x) for x in e.split(":")) for e in s.split(",")]
 
 
@@ -92,7 +128,7 @@ def run_impl(op):
     a = op.split(" ")
     layout = parse_layout(a[1])
     try:
-        m, vs = build(layout, parse_before(a[1]))
+        m, vs = build(layout, parse_before(a[1]), via_read=a[1].startswith("rd~"))
     except Exception:
         return "err"
     if a[0] == "lay":
@@ -286,9 +322,12 @@ def gen_ops(tier, rng):
     nfr = 1 if tier == "quick" else 3
     for lay in layouts:
         ls = ",".join(f"{t}:{l}" for t, l in lay)
-        if rng.random() < 0.12:
+        r = rng.random()
+        if r < 0.12:
             old = rng.choice(layouts)
             ls = ",".join(f"{t}:{l}" for t, l in old) + "|" + ls
+        elif r < 0.3 or any(l == 64 for _, l in lay):
+            ls = "rd~" + ls           # the map comes from the mapping parameters (PdoMap.read)
         yield f"lay {ls}"
         size = (sum(l for _, l in lay) + 7) // 8
         idxs = range(len(lay)) if len(lay) <= 2 else [rng.randrange(len(lay)) for _ in range(2)]
@@ -305,6 +344,8 @@ def gen_ops(tier, rng):
 
 
 CORPUS = [
+    "lay rd~27:64",                     # a 64-bit object mapped with its full length, map read from 0x1600
+    "get rd~5:8,2:4,2:4 00f0 2",
     "lay 5:8,5:8,5:8|2:4,2:4,2:4",      # a map that is cleared and filled again starts at bit 0 again
     "get 1:1,6:16 000001 1",            # F2: UNSIGNED16 at bit offset 1 spills out of its byte window
     "set 1:1,6:16 000000 1 int 65535",
